@@ -399,7 +399,10 @@ int EGLPNUM_TYPENAME_ILLtest_lp_state_next_is (
 	const char *str)
 {
 	EGLPNUM_TYPENAME_ILLread_lp_state_skip_blanks (state, 0);
-	if (strncasecmp (state->p, str, strlen (str)) == 0)
+	/* a keyword is a word of its own: "free" must not match the beginning of a
+	 * column called freeze */
+	if (strncasecmp (state->p, str, strlen (str)) == 0 &&
+			!EGLPNUM_TYPENAME_ILLis_lp_name_char (state->p[strlen (str)], 1))
 	{
 		state->p += strlen (str);
 		return 1;
